@@ -832,6 +832,9 @@ func exec(ops []string, o *vu.Out) {
 			continue
 		}
 		o.Stat("op:" + t[0])
+		if runCtl(op, t, o) {
+			continue
+		}
 		k := &toks{t: t[1:]}
 		switch t[0] {
 		case "msg":
